@@ -122,8 +122,8 @@ def problems(tier):
     P.append(({'fam': 'sq2'}, [[1., 1.], None, [10., -10.]]))
     P.append(({'fam': 'exp', 'a': [2.]}, [None, [5.], [-30.]]))
     P.append(({'fam': 'exp', 'a': [-1.]}, [None]))
-    P.append(({'fam': 'log'}, [[.5], [2.], [10.], None]))
-    P.append(({'fam': 'sqrt'}, [[1.], [25.], None]))
+    P.append(({'fam': 'log'}, [[10.], [.5], [2.], None]))
+    P.append(({'fam': 'sqrt'}, [[25.], [1.], None]))
     P.append(({'fam': 'atan'}, [[.5], [2.], None]))
     P.append(({'fam': 'cubic'}, [None, [-2.], [1.]]))
     P.append(({'fam': 'conv'}, [None, [1., 10.]]))
@@ -176,6 +176,18 @@ def _cons_array(cons):
     return numpy.array([numpy.nan if v is None else v for v in cons['v']], dtype=float)
 
 
+def _where(e):
+    'innermost nutils function an unexpected exception escaped from (names the root cause in violation keys)'
+    name = '?'
+    tb = e.__traceback__
+    while tb is not None:
+        code = tb.tb_frame.f_code
+        if '/nutils/' in code.co_filename:
+            name = code.co_filename.rsplit('/', 1)[-1][:-3] + '.' + getattr(code, 'co_qualname', code.co_name)
+        tb = tb.tb_next
+    return name
+
+
 def execute(S, prob, c):
     '''run one request; returns ('returned', u ndarray | other) / ('raised', typename, family, msg)'''
     from nutils import solver, matrix
@@ -195,6 +207,8 @@ def execute(S, prob, c):
                 obj = prob.nutils()
                 target = 'u'
                 res = obj if prob.functional else obj[0]
+                if prob.functional and api in ('newton', 'newton-plain', 'newton-withinfo', 'pseudotime', 'solve_linear'):
+                    res = obj.derivative('u')
                 common = dict(constrain=cons, lhs0=u0)
                 if api == 'solve_linear':
                     out = solver.solve_linear(target, res, **common)
@@ -223,9 +237,9 @@ def execute(S, prob, c):
     except matrix.MatrixError as e:
         return ('raised', type(e).__name__, 'ok', str(e)[:60])
     except ValueError as e:
-        return ('raised', 'ValueError', 'value', str(e)[:80])
+        return ('raised', 'ValueError@' + _where(e), 'value', str(e)[:80])
     except Exception as e:
-        return ('raised', type(e).__name__, 'other', str(e)[:200])
+        return ('raised', type(e).__name__ + '@' + _where(e), 'other', str(e)[:200])
     return ('returned', out)
 
 
@@ -253,10 +267,6 @@ def valid_request(prob, c):
             return 'optimize requires a scalar functional'
         if not prob.linear and c['tol'] <= 0:
             return 'iterative method requires tol > 0'
-    if api == 'pseudotime' and prob.functional:
-        return 'pseudotime requires a residual vector'
-    if api in ('newton', 'newton-plain', 'newton-withinfo') and prob.functional:
-        return 'newton requires a residual vector'
     return None
 
 
@@ -282,52 +292,54 @@ def judge(prob, c, out):
     if out[0] == 'timeout':
         return None  # a hang is not this property's concern; counted by the caller
     name = c['method'] if c['api'] == 'system' else c['api']
+    # the stopping test lives in two places: System.solve (also behind solve_linear / optimize) and the legacy _with_solve.solve_withinfo
+    site = 'System.solve' if c['api'] in ('system', 'solve_linear', 'optimize') else '_with_solve'
     invalid = valid_request(prob, c)
     if out[0] == 'raised':
         if out[2] == 'ok':
             return None
         if out[2] == 'value' and invalid:
             return None
-        return 'nl:raised-unexpected:{}:{}'.format(out[1], name), '{} on a {} request raised {}({!r})'.format(name, 'supported' if not invalid else 'unsupported (' + invalid + ')', out[1], out[3])
+        return 'nl:raised-unexpected:{}'.format(out[1]), '{} on a {} request raised {}({!r})'.format(name, 'supported' if not invalid else 'unsupported (' + invalid + ')', out[1], out[3])
     u = out[1]
     if invalid and not (invalid == 'miniter > maxiter'):
         # an unsupported request that returns anyway is judged like any other answer below
         pass
     if not isinstance(u, numpy.ndarray) or u.shape != (prob.n,):
-        return 'nl:bad-shape:' + name, 'returned {!r}'.format(u)
+        return 'nl:bad-shape:' + site, 'returned {!r}'.format(u)
     free, p = prescription(prob.n, c)
     if not numpy.isfinite(u).all():
-        return 'nl:nonfinite-returned:' + name, 'returned non-finite values {}'.format(u.tolist())
+        return 'nl:nonfinite-returned:' + site, 'returned non-finite values {}'.format(u.tolist())
     if u[~free].tobytes() != p[~free].tobytes():
-        return 'nl:constraint-violated:' + name, 'constrained entries {} differ from the prescription {}'.format(u[~free].tolist(), p[~free].tolist())
+        return 'nl:constraint-violated:' + site, 'constrained entries {} differ from the prescription {}'.format(u[~free].tolist(), p[~free].tolist())
     terms = prob.terms(u)
     with numpy.errstate(all='ignore'):
         r = sum(terms)[free]
         mag = float(sum(abs(t) for t in terms)[free].max(initial=0.))
         rn = float(numpy.sqrt((r * r).sum()))
     if not numpy.isfinite(r).all():
-        return 'nl:nonfinite-residual-returned:' + name, 'returned u={} at which the residual of the free equations is {} (outside the domain of the problem)'.format(u.tolist(), r.tolist())
+        return 'nl:nonfinite-residual-returned:' + site, 'returned u={} at which the residual of the free equations is {} (outside the domain of the problem)'.format(u.tolist(), r.tolist())
     tol = c['tol']
     if tol > 0 or c['api'] != 'system' and c['api'] not in ('solve_linear', 'optimize'):
         if not rn <= tol * (1 + 1e-9) + 1e-12 * mag:
-            return 'nl:unconverged-returned:' + name, 'returned u={} with free residual norm {:.3e} > tol={:g}'.format(u.tolist(), rn, tol)
+            return 'nl:unconverged-returned:' + site, 'returned u={} with free residual norm {:.3e} > tol={:g}'.format(u.tolist(), rn, tol)
     elif not rn <= 1e-8 * mag:
         J = prob.jac(u)
         if J is not None and free.any() and numpy.linalg.cond(J[numpy.ix_(free, free)]) < 1e6:
-            return 'nl:unconverged-returned:tol0:' + name, 'no tolerance requested (direct solve) on a well-conditioned linear problem; returned u={} with residual {:.3e}'.format(u.tolist(), rn)
+            return 'nl:unconverged-returned:tol0:' + site, 'no tolerance requested (direct solve) on a well-conditioned linear problem; returned u={} with residual {:.3e}'.format(u.tolist(), rn)
     return None
 
 
 def brief(c):
     return '{} u0={} cons={} {} tol={:g} maxiter={} miniter={}'.format(json.dumps(c['prob']), c['u0'], None if c['cons'] is None else c['cons']['v'],
-                                                                      c['method'] if c['api'] == 'system' else c['api'], c['tol'], c['maxiter'], c['miniter'])
+                                                                      c['method'] if c['api'] == 'system' else 'legacy ' + c['api'], c['tol'], c['maxiter'], c['miniter'])
 
 
 def requests(spec, guesses, tier, methods, legacy):
     prob = Problem(spec)
+    th = tier == 'thorough'
     tols = [0., 1e-10, 1e-3]
-    maxiters = [1, 3, 25]
-    miniters = [0, 2]
+    combos = [(mx, mn) for mx in (1, 3, 25) for mn in (0, 2)]
     for method in methods:
         for u0 in guesses:
             for cons in constraint_patterns(prob.n):
@@ -335,19 +347,24 @@ def requests(spec, guesses, tier, methods, legacy):
                     if method == 'direct' or method == 'default' and prob.linear:
                         yield {'api': 'system', 'prob': spec, 'u0': u0, 'cons': cons, 'method': method, 'tol': tol, 'maxiter': None, 'miniter': 0}
                         continue
-                    for maxiter in maxiters:
-                        for miniter in miniters:
-                            yield {'api': 'system', 'prob': spec, 'u0': u0, 'cons': cons, 'method': method, 'tol': tol, 'maxiter': maxiter, 'miniter': miniter}
+                    for maxiter, miniter in combos:
+                        if method == 'arnoldi' and miniter > 1:
+                            continue  # the arnoldi method is a finite (<= maxiter+2 stage) iteration; asking for more stages is not a meaningful request
+                        yield {'api': 'system', 'prob': spec, 'u0': u0, 'cons': cons, 'method': method, 'tol': tol, 'maxiter': maxiter, 'miniter': miniter}
+    # the legacy wrappers build a new System per call (30-50 ms): in the quick tier a fixed slice of guesses x constraints x iteration limits
+    allcons = constraint_patterns(prob.n)
     for api in legacy:
-        for u0 in guesses:
-            for cons in constraint_patterns(prob.n):
-                for tol in tols:
+        if api in ('minimize', 'optimize') and not prob.functional:
+            continue
+        for u0 in (guesses if th else guesses[:2]):
+            for cons in (allcons if th else [allcons[0], allcons[1], allcons[-1]]):
+                for tol in (tols if th else tols[:2]):
                     if api in ('solve_linear', 'optimize'):
                         if api == 'solve_linear' and tol != tols[0]:
                             continue
                         yield {'api': api, 'prob': spec, 'u0': u0, 'cons': cons, 'method': None, 'tol': tol, 'maxiter': None, 'miniter': 0}
                         continue
-                    for maxiter, miniter in ((1, 0), (1, 2), (3, 0), (25, 0), (25, 2)):
+                    for maxiter, miniter in ((1, 0), (1, 2), (3, 0), (25, 0), (25, 2)) if th else ((1, 2), (3, 0), (25, 0)):
                         yield {'api': api, 'prob': spec, 'u0': u0, 'cons': cons, 'method': None, 'tol': tol, 'maxiter': maxiter, 'miniter': miniter}
 
 
@@ -357,7 +374,7 @@ def explore(res, spec, guesses, tier, methods, legacy):
     prob = Problem(spec)
     groups = {}
     for c in requests(spec, guesses, tier, methods, legacy):
-        groups.setdefault(c['method'] or c['api'], []).append(c)
+        groups.setdefault(c['method'] or 'legacy-' + c['api'], []).append(c)
     for name, cases in groups.items():
         S = prob.system() if cases[0]['api'] == 'system' else None
         hist = []
@@ -519,7 +536,7 @@ class StepRunner:
             stats['outcomes'].append('timeout')
             return None, None
         except Exception as e:
-            outcome = ('raised', 'other', type(e).__name__ + ': ' + str(e)[:100])
+            outcome = ('raised', 'other', type(e).__name__ + '@' + _where(e) + ': ' + str(e)[:100])
         stats['solves'] += len(self.trace)
         v = validate_step(self.name, self.mname, state, T, K, list(self.trace), outcome, stats)
         stats['outcomes'].append(outcome[0] if outcome[0] == 'returned' else outcome[2].split(':')[0])
@@ -611,16 +628,15 @@ def validate_step(name, mname, state, T, K, trace, outcome, stats):
     if outcome[0] == 'returned':
         return 'step:returned-after-failure', 'an attempt failed without retries left but step returned {}'.format(outcome[1])
     if outcome[1] != 'ok' or r[0] == 'raised-other':
-        return 'step:raised-unexpected:' + outcome[2].split(':')[0], 'step raised {}'.format(outcome[2])
+        return 'nl:raised-unexpected:' + outcome[2].split(':')[0], 'step raised {}'.format(outcome[2])
     return None
 
 
-def explore_steps(res, name, mname, tier, first, upto=None):
+def explore_steps(res, name, mname, tier, first, upto=None, depth=3):
     '''depth-first over all sequences of <= 3 step calls (timestep x maxretry) whose first call is `first`, on ONE System object
     (steps are functional in the arguments dict, so a state is just that dict); a violation is confirmed on a fresh System.
     With upto=seq (replay of a history-dependent witness) the same traversal is repeated until that sequence and its verdict returned.'''
     ode = ODES[name]
-    depth = 3
     alphabet = [[T, K] for T in ode['steps'] for K in (0, 1, 2)]
     R = StepRunner(name, mname)
 
